@@ -262,6 +262,14 @@ func runC16(c *Ctx) {
 		// loop bound is Replicas and starts at 0
 		a := &LinAnalysis{P: p, Fn: clone}
 		rangeOK, nChk := true, 0
+		// values that hold the configured replica count (loads of the Replicas field, also hoisted into a local)
+		fReplicas := p.Field("types", "ProcessConfig", "Replicas")
+		isCount := map[string]bool{}
+		AllInstrs(clone, func(in ssa.Instruction) {
+			if v, ok := in.(ssa.Value); ok && isIntType(v.Type()) && PathOf(v).LastField() == fReplicas {
+				isCount[VarOf(v)] = true
+			}
+		})
 		a.OnInstr = func(in ssa.Instruction, st *LinState) {
 			if v, ok := StoredValue(in, s.FReplicaNum); ok {
 				nChk++
@@ -275,7 +283,7 @@ func runC16(c *Ctx) {
 					// some constraint t - x + 1 <= 0
 					if cons.C == 1 && len(cons.Coef) == 2 {
 						for v2, k := range cons.Coef {
-							if k == -1 && strings.Contains(v2, "Replicas") {
+							if k == -1 && (strings.Contains(v2, "Replicas") || isCount[v2]) {
 								for v3, k3 := range cons.Coef {
 									if k3 == 1 && v3 != v2 {
 										if tt, okk := t.Coef[v3]; okk && tt == 1 {
@@ -298,7 +306,17 @@ func runC16(c *Ctx) {
 
 	// ------------------------------------------------------------------ (4)
 	r4 := c.Rule("render-coverage", "the renderer stores the result of the template engine into Command, WorkingDir, LogLocation, Description, and for both probes into Exec.Command, HttpGet.Host, HttpGet.Path and HttpGet.Port; the replica number is stored into the variables before the first engine call; the render stage renders every process of the map and writes it back")
-	engine := p.TryMethod("templater", "Templater", "render")
+	// the engine: the templater function that executes a text/template
+	var engine *ssa.Function
+	for _, f := range p.FuncsOfPkg("templater") {
+		AllInstrs(f, func(in ssa.Instruction) {
+			if call, ok := in.(*ssa.Call); ok {
+				if o := CalleeObj(&call.Call); o != nil && o.Pkg() != nil && o.Pkg().Path() == "text/template" && o.Name() == "Execute" {
+					engine = f
+				}
+			}
+		})
+	}
 	engineSite := Site{Name: "template engine", Call: func(cc *ssa.CallCommon) bool {
 		sc := cc.StaticCallee()
 		if sc == nil || pkgOfFunc(sc) == nil || pkgOfFunc(sc).Name() != "templater" {
@@ -715,6 +733,26 @@ func (p *Prog) freshValue(v ssa.Value, depth2 []*types.Var) (fresh bool, deep bo
 						if sto, isSt := r2.(*ssa.Store); isSt {
 							if a2, isAl := stripConv(sto.Val).(*ssa.Alloc); isAl && a2.Heap {
 								okG = true
+								// the copy of this field depends on nothing but the field itself being set (and the
+								// receiver being non-nil): not on a sibling field being unset
+								for _, gd := range GuardsOf(sto) {
+									cmp, isCmp := gd.Cmp()
+									if !isCmp {
+										okG = false
+										continue
+									}
+									for _, side := range []ssa.Value{cmp.X, cmp.Y} {
+										if IsNilConst(side) {
+											continue
+										}
+										if _, isPrm := stripConv(side).(*ssa.Parameter); isPrm {
+											continue
+										}
+										if PathOf(side).LastField() != g {
+											okG = false
+										}
+									}
+								}
 							}
 						}
 					}
